@@ -142,3 +142,22 @@ Qed.
 
 Lemma chain_parity_guarded c l : chain_guard false c = true -> run_chain true KSeq l c = run_chain false KSeq l c.
 Proof. intros G. apply (chain_parity_gen c false); [split; congruence|exact G]. Qed.
+
+(* since every consumer but length has an async variant, and length fails on any generator in
+   both modes, no guard is needed any more *)
+Lemma chain_parity_all c : forall lazy ka ks l,
+  krel lazy ka ks -> run_chain true ka l c = run_chain false ks l c.
+Proof.
+  induction c as [|f r IH]; intros lazy ka ks l K; [reflexivity|]. cbn [run_chain].
+  assert (A : accepts f ka = accepts f ks).
+  { unfold krel in K. destruct lazy.
+    - destruct K as [-> ->]. destruct f; reflexivity.
+    - destruct K as [-> _]. reflexivity. }
+  destruct (accepts f ka) eqn:Ea; rewrite <- A; [|reflexivity].
+  destruct (sem f l) as [l'|z| |n|]; try reflexivity.
+  exact (IH _ _ _ l' (out_kind_rel f lazy ka ks K Ea)).
+Qed.
+
+Lemma chain_parity_full c l : run_chain true KSeq l c = run_chain false KSeq l c.
+Proof. apply (chain_parity_all c false). split; congruence. Qed.
+
